@@ -128,9 +128,17 @@ def crash_points(ctx, sc, n_prefix):
 
 def make_history(sc, pt):
     f = {"scope": sc["scope"], "at": sc["at"]}
-    f.update(pt)
-    return {"steps": [job_of(sc["cfg"], fault={"fs_crash": f}),
-                      job_of(sc["cfg"], ckpt_allow_previous=True)]}
+    f.update({k: v for k, v in pt.items() if k != "second"})
+    steps = [job_of(sc["cfg"], fault={"fs_crash": f})]
+    if pt.get("second"):
+        # double fault: the resumed process is killed again inside its own
+        # first write of the same kind
+        f2 = {"scope": sc["scope"]}
+        f2.update(pt["second"])
+        steps.append(job_of(sc["cfg"], fault={"fs_crash": f2},
+                            ckpt_allow_previous=True))
+    steps.append(job_of(sc["cfg"], ckpt_allow_previous=True))
+    return {"steps": steps}
 
 
 def judge(ctx, sc, pt, reports, out):
@@ -148,6 +156,10 @@ def judge(ctx, sc, pt, reports, out):
         viols.append(Violation(key, msg, case))
 
     crashed = first.get("returncode") == 17
+    if pt.get("second"):
+        classes.append("double-fault")
+        if len(reports) >= 3 and reports[1].get("returncode") == 17:
+            classes.append("double-fault:second-crash-reached")
     inside = False
     if not crashed:
         classes.append("crash-point-not-reached")
@@ -203,6 +215,16 @@ def run(ctx):
     for sc in scens:
         pts = crash_points(ctx, sc, 1 if ctx.quick else 22)
         plan.extend((sc, pt) for pt in pts)
+    # double-fault histories (kill in a write, resume, kill again in the
+    # next write of the same kind, resume)
+    for sc in scens:
+        nb = int(sc["bytes"] or 0)
+        if sc["when"] == "late" and nb > 4:
+            plan.append((sc, {"prefix": nb // 2,
+                              "second": {"at": 1, "prefix": nb // 3}}))
+            if not ctx.quick:
+                plan.append((sc, {"prefix": 0,
+                                  "second": {"at": 1, "op": 2}}))
     out.stats.extra["crash_points_enumerated"] = len(plan)
     if ctx.quick and len(plan) > 64:
         # seeded stratified subset: every scenario keeps its op boundaries
@@ -215,7 +237,10 @@ def run(ctx):
             bysc.setdefault(sc["name"], []).append((sc, pt))
         for v in bysc.values():
             rng.shuffle(v)
-        plan = []
+        keep = [(sc, pt) for sc, pt in plan if pt.get("second")]
+        for k in bysc:
+            bysc[k] = [x for x in bysc[k] if not x[1].get("second")]
+        plan = list(keep)
         while len(plan) < 64 and any(bysc.values()):
             for k in sorted(bysc):
                 if bysc[k] and len(plan) < 64:
